@@ -52,7 +52,13 @@ func addNumbers(n0, n1 slip.Object) slip.Object {
 	n0, n1 = slip.NormalizeNumber(n0, n1)
 	switch t0 := n0.(type) {
 	case slip.Fixnum:
-		n1 = t0 + n1.(slip.Fixnum)
+		t1 := n1.(slip.Fixnum)
+		if sum := t0 + t1; (t0 < sum) == (0 < t1) {
+			n1 = sum
+		} else { // overflow, promote to a bignum
+			var z big.Int
+			n1 = (*slip.Bignum)(z.Add(big.NewInt(int64(t0)), big.NewInt(int64(t1))))
+		}
 	case slip.SingleFloat:
 		n1 = t0 + n1.(slip.SingleFloat)
 	case slip.DoubleFloat:
